@@ -976,6 +976,8 @@ COLUMN_OF_CONSTANT = {
     "INITIAL_BUILT_SEAWEED_FRACTION": ("initial_built_fraction", 1.0), "INITIAL_CROP_AREA_HA": ("crop_area_1000ha", 1000.0),
     "FISH_DRY_CALORIC_ANNUAL": ("aq_kcals", 1.0), "TONS_MILK_ANNUAL": ("dairy", 1.0), "INITIAL_MILK_CATTLE": ("dairy_cows", 1.0),
     "INIT_SMALL_ANIMALS": ("small_animals", 1.0), "INIT_MEDIUM_ANIMALS": ("medium_animals", 1.0),
+    "INIT_LARGE_ANIMALS_WITH_MILK_COWS": ("large_animals", 1.0), "BASELINE_CROP_KCALS": ("crop_kcals", 1.0),
+    "INITIAL_CROP_AREA_FRACTION": ("fraction_crop_area", 1.0), "POWER_LAW_IMPROVEMENT": ("power_law_improvement", 1.0),
 }
 
 
@@ -1002,6 +1004,16 @@ def check_country_inputs(ctx, rows):
             if not wire.close(got, want, 1e-12, 0.0):
                 ctx.violation("baseline-not-from-its-column:" + const, "%s: %s = %r, the shipped table has %s x %g = %r" % (iso, const, got, col, fac, want),
                               {"country": iso, "constant": const, "column": col})
+        growth = c.get("SEAWEED_GROWTH_PER_DAY") or {}
+        for key, val in growth.items():
+            col = "seaweed_growth_per_day_" + str(key)
+            if col in row and not wire.close(float(val), float(row[col]), 1e-12, 0.0):
+                ctx.violation("baseline-not-from-its-column:SEAWEED_GROWTH_PER_DAY", "%s: SEAWEED_GROWTH_PER_DAY[%s] = %r, the shipped table has %s = %r" % (
+                    iso, key, float(val), col, float(row[col])), {"country": iso, "constant": "SEAWEED_GROWTH_PER_DAY", "key": str(key), "column": col})
+        ncols = sum(1 for k_ in row.index if "seaweed_growth_per_day_" in str(k_))
+        if len(growth) != ncols:
+            ctx.violation("baseline-not-from-its-column:SEAWEED_GROWTH_PER_DAY", "%s: %d seaweed growth entries for %d columns of the table" % (iso, len(growth), ncols),
+                          {"country": iso, "constant": "SEAWEED_GROWTH_PER_DAY"})
         stocks = c.get("END_OF_MONTH_STOCKS") or {}
         for mon in ["JAN", "FEB", "MAR", "APR", "MAY", "JUN", "JUL", "AUG", "SEP", "OCT", "NOV", "DEC"]:
             col = "stocks_kcals_" + mon.lower()
